@@ -49,7 +49,7 @@ class CallGraph:
         # index local impl methods: (trait path, method) -> [(self type string, body)]
         self.trait_methods = {}
         for b in prog.bodies.values():
-            if b.kind == "Closure" or not b.impl or not b.impl["trait"]:
+            if b.kind in ("Closure", "Promoted") or not b.impl or not b.impl["trait"]:
                 continue
             self.trait_methods.setdefault((b.impl["trait"], b.name), []).append(b)
         self.local_adts = set(prog.adts.keys())
